@@ -22,19 +22,23 @@ Definition spec_of (m : matcher) : matchspec :=
   | MIs o => MsIs o
   end.
 
+(* queries name data_ids and keys by their index in the case's tables (the
+   case files stay small: a hash-valued data_id is written once per case) *)
 Inductive query :=
-| QNodeFindAll (start : Z) (data : option did) (mt : option Z) (data_id : option did) (ks : list Z)
+| QNodeFindAll (start : Z) (data : option Z) (mt : option Z) (data_id : option Z) (ks : list Z)
     (* a sweep: add_self in [false; true] x max_results in ks *)
-| QNodeFindFirst (start : Z) (data : option did) (mt : option Z) (data_id : option did)
-| QTreeFindAll (data : option did) (mt : option Z) (data_id : option did) (ks : list Z)
-| QTreeFindFirst (data : option did) (mt : option Z) (data_id : option did) (node_id : option Z)
-| QGet (k : key)
-| QContains (k : key)
-| QDel (k : key).
+| QNodeFindFirst (start : Z) (data : option Z) (mt : option Z) (data_id : option Z)
+| QTreeFindAll (data : option Z) (mt : option Z) (data_id : option Z) (ks : list Z)
+| QTreeFindFirst (data : option Z) (mt : option Z) (data_id : option Z) (node_id : option Z)
+| QGet (k : Z)
+| QContains (k : Z)
+| QDel (k : Z).
 
 Record case := C {
   c_state : tstate;
   c_matchers : list matcher;
+  c_dids : list did;
+  c_keys : list key;
   c_queries : list query
 }.
 
@@ -45,41 +49,47 @@ Definition St (f : forest) (r : list (Z * Z)) (ix : list (did * list Z)) : tstat
 Definition sx_res {X} (g : X -> sx) (r : res X) : sx :=
   match r with Ok x => L [A 0%Z; g x] | Err e => L [A 1%Z; sx_nat e] end.
 
-Definition get_matcher (ms : list matcher) (mt : option Z) : res (option matchspec) :=
-  match mt with
+Definition get_tab {X Y} (g : X -> Y) (tab : list X) (i : option Z) : res (option Y) :=
+  match i with
   | None => Ok None
-  | Some i => match nth_error ms (Z.to_nat i) with Some m => Ok (Some (spec_of m)) | None => Err EModel end
+  | Some i => match nth_error tab (Z.to_nat i) with Some x => Ok (Some (g x)) | None => Err EModel end
   end.
 
-Definition run_query (st : tstate) (ms : list matcher) (q : query) : sx :=
+Definition bad_ref : sx := L [A 1%Z; sx_nat EModel].
+
+Definition run_query (c : case) (q : query) : sx :=
+  let st := c_state c in
   let f := t_forest st in
+  let gm := get_tab spec_of (c_matchers c) in
+  let gd := get_tab (fun d : did => d) (c_dids c) in
+  let gk i := nth_error (c_keys c) (Z.to_nat i) in
   match q with
   | QNodeFindAll s data mt data_id ks =>
-      match start_of f (Z.to_nat s), get_matcher ms mt with
-      | Some s', Ok mt' =>
+      match start_of f (Z.to_nat s), gd data, gm mt, gd data_id with
+      | Some s', Ok data', Ok mt', Ok did' =>
           L (map (fun add_self =>
-                    L (map (fun k => sx_res sx_nodes (node_find_all (iterator f s') data mt' data_id add_self (Z.to_nat k))) ks))
+                    L (map (fun k => sx_res sx_nodes (node_find_all (iterator f s') data' mt' did' add_self (Z.to_nat k))) ks))
                  [false; true])
-      | _, _ => L [A 1%Z; sx_nat EModel]
+      | _, _, _, _ => bad_ref
       end
   | QNodeFindFirst s data mt data_id =>
-      match start_of f (Z.to_nat s), get_matcher ms mt with
-      | Some s', Ok mt' => sx_res sx_onode (node_find_first (iterator f s') data mt' data_id)
-      | _, _ => L [A 1%Z; sx_nat EModel]
+      match start_of f (Z.to_nat s), gd data, gm mt, gd data_id with
+      | Some s', Ok data', Ok mt', Ok did' => sx_res sx_onode (node_find_first (iterator f s') data' mt' did')
+      | _, _, _, _ => bad_ref
       end
   | QTreeFindAll data mt data_id ks =>
-      match get_matcher ms mt with
-      | Ok mt' => L (map (fun k => sx_res sx_ids (tree_find_all st data mt' data_id (Z.to_nat k))) ks)
-      | Err e => L [A 1%Z; sx_nat e]
+      match gd data, gm mt, gd data_id with
+      | Ok data', Ok mt', Ok did' => L (map (fun k => sx_res sx_ids (tree_find_all st data' mt' did' (Z.to_nat k))) ks)
+      | _, _, _ => bad_ref
       end
   | QTreeFindFirst data mt data_id node_id =>
-      match get_matcher ms mt with
-      | Ok mt' => sx_res (sx_opt sx_nat) (tree_find_first st data mt' data_id node_id)
-      | Err e => L [A 1%Z; sx_nat e]
+      match gd data, gm mt, gd data_id with
+      | Ok data', Ok mt', Ok did' => sx_res (sx_opt sx_nat) (tree_find_first st data' mt' did' node_id)
+      | _, _, _ => bad_ref
       end
-  | QGet k => sx_res sx_nat (getitem st k)
-  | QContains k => sx_res sx_bool (contains st k)
-  | QDel k => sx_res sx_ids (delitem st k)
+  | QGet i => match gk i with Some k => sx_res sx_nat (getitem st k) | None => bad_ref end
+  | QContains i => match gk i with Some k => sx_res sx_bool (contains st k) | None => bad_ref end
+  | QDel i => match gk i with Some k => sx_res sx_ids (delitem st k) | None => bad_ref end
   end.
 
 (* the first component says whether the observed registry and clone index
@@ -87,4 +97,4 @@ Definition run_query (st : tstate) (ms : list matcher) (q : query) : sx :=
    ([state_wf_b], proved sound in SearchProofs.v); the harness expects 1 *)
 Definition run09 (c : case) : sx :=
   L [ sx_bool (state_wf_b (c_state c));
-      L (map (run_query (c_state c) (c_matchers c)) (c_queries c)) ].
+      L (map (run_query c) (c_queries c)) ].
